@@ -129,7 +129,7 @@ def source_digest():
         import cryptoparser
         import cryptodatahub
         roots = [os.path.dirname(cryptoparser.__file__), os.path.join(common.HERE, 'pyvc'),
-                 os.path.join(common.HERE, 'contracts'), os.path.join(common.HERE, 'checks')]
+                 os.path.join(common.HERE, 'contracts'), os.path.join(common.HERE, 'checks'), os.path.join(common.HERE, 'spec')]
         for root in roots:
             for d, _, fs in sorted(os.walk(root)):
                 for f in sorted(fs):
@@ -137,6 +137,7 @@ def source_digest():
                         p = os.path.join(d, f)
                         h.update(p.encode())
                         h.update(open(p, 'rb').read())
+        h.update(open(os.path.join(common.HERE, 'known_findings.json'), 'rb').read())       # listed regions shape the proofs
         h.update(getattr(cryptodatahub, '__version__', '?').encode())
         h.update(repr((ITEM_BOUND, LOOP_BOUND, E.RLIMIT_BRANCH, E.RLIMIT_GOAL)).encode())
         _DIGEST = h.hexdigest()[:24]
